@@ -64,7 +64,7 @@ func rmc(p *big.Int, digits []*big.Int) {
 	c := &circuits.ReducedCheckCircuit{In: make([]frontend.Variable, len(digits))}
 	err := test.IsSolved(c, &circuits.ReducedCheckCircuit{In: vars(digits)}, p)
 	stat["rmc"]++
-	fmt.Printf("rmc\t%s\t%s\t=>\t%s\n", p, digitsCsv(digits), acc(err))
+	fmt.Fprintf(gen.Out, "rmc\t%s\t%s\t=>\t%s\n", p, digitsCsv(digits), acc(err))
 }
 
 func tre(p *big.Int, n int, v *big.Int) {
@@ -83,7 +83,7 @@ func tre(p *big.Int, n int, v *big.Int) {
 		}
 	}
 	stat["tre"]++
-	fmt.Printf("tre\t%s\t%d\t%s\t=>\t%s\n", p, n, v, res)
+	fmt.Fprintf(gen.Out, "tre\t%s\t%d\t%s\t=>\t%s\n", p, n, v, res)
 }
 
 func fbe(p *big.Int, bits []*big.Int) {
@@ -111,7 +111,7 @@ func fbe(p *big.Int, bits []*big.Int) {
 		res = "gadget-accepts-wrong"
 	}
 	stat["fbe"]++
-	fmt.Printf("fbe\t%s\t%s\t=>\t%s\n", p, bitString(bits), res)
+	fmt.Fprintf(gen.Out, "fbe\t%s\t%s\t=>\t%s\n", p, bitString(bits), res)
 }
 
 var ccs256 constraint.ConstraintSystem
@@ -136,7 +136,7 @@ func forge(v *big.Int, k int64) {
 		}
 	}
 	stat["forge"]++
-	fmt.Printf("forge\t%s\t%d\t=>\t%s\n", v, k, res)
+	fmt.Fprintf(gen.Out, "forge\t%s\t%d\t=>\t%s\n", v, k, res)
 }
 
 func main() {
@@ -166,7 +166,7 @@ func main() {
 		}
 	}
 	// BN254: every position of the first differing bit, both directions, equality, r-1
-	for pos := 0; pos < 256 && (*exhaustive || pos%(1+256 / *n) == 0); pos++ {
+	for pos := 0; pos < 256 && (*exhaustive || pos%(1 + 256 / *n) == 0); pos++ {
 		x := new(big.Int).Set(r)
 		x.SetBit(x, pos, x.Bit(pos)^1)
 		low := g.Below(new(big.Int).Lsh(big.NewInt(1), uint(pos)+1))
